@@ -22,7 +22,7 @@ import itertools
 import struct
 
 STREAMS = ['binary-cuts', 'binary-random', 'binary-coalesced', 'binary-malformed',
-           'lines-scripted', 'handoff-real-client', 'handoff-real-server', 'handoff-cuts', 'handoff-bigtail', 'handoff-stub', 'binary-unparsable', 'limit-scaled']
+           'lines-scripted', 'handoff-real-client', 'handoff-real-server', 'handoff-cuts', 'handoff-bigtail', 'handoff-stub', 'binary-unparsable', 'limit-scaled', 'reentrant-delivery']
 THEOREMS = ['binary_partition_independent', 'frames_of_messages', 'line_partition_independent',
             'handoff', 'loop_bounded', 'delivers_messages_sent', 'delivers_messages_sent_after_handshake',
             'model_control_flow_matches_source']
@@ -37,7 +37,8 @@ TRUSTED_BASE = [
 ASSUMPTIONS = [
     'Twisted never delivers an empty read to a server before the first byte was seen (the code indexes data[0])',
     'the reactor turns an exception escaping dataReceived into a lost connection (no further reads)',
-    'rawDBusMessageReceived does not re-enter dataReceived',
+    'rawDBusMessageReceived does not re-enter dataReceived IN THE MODEL; the implementation is checked under '
+    'nested delivery and raising handlers by the implementation-only stream reentrant-delivery',
     'a message that fails to PARSE makes rawDBusMessageReceived raise inside the delivery loop: [unparsable, good] '
     'in one read leaves `good` buffered (delivered by the next read), as two reads `good` is delivered at once - '
     'partition-dependent, but only after an exception escaped dataReceived, i.e. on a connection the reactor drops; '
@@ -261,6 +262,10 @@ def random_partition(rng, stream):
 
 
 # --------------------------------------------------------------------------------------- running the real code
+class HandlerError(Exception):
+    """Raised by a scheduled message handler (stream reentrant-delivery)."""
+
+
 class _FakeBus:
     uuid = b'0123456789abcdef0123456789abcdef'
 
@@ -304,14 +309,20 @@ def _make_classes():
             self.raws.append(bytes(raw))
             try:
                 protocol.BasicDBusProtocol.rawDBusMessageReceived(self, raw)
+            except HandlerError:
+                raise                    # a scheduled handler failure, not a parse error
             except Exception as e:
                 self.parsed.append({'parse-error': type(e).__name__})
                 self.parse_failed = True
                 if not self.swallow:     # as in the real code: the exception escapes dataReceived
                     raise
 
+        hook = None      # schedule for nested / raising handlers (stream reentrant-delivery)
+
         def methodCallReceived(self, m):
             self.parsed.append(canon_msg(m))
+            if self.hook is not None:
+                self.hook(len(self.parsed) - 1)
 
         methodReturnReceived = errorReceived = signalReceived = methodCallReceived
 
@@ -450,9 +461,28 @@ def observe(ctx, sc):
         # the class constant lowered for this connection: code that consults it while framing is exercised
         # at this scale; the unchanged dataReceived never reads it
         p.MAX_MSG_LENGTH = sc['max_msg']
-    for rd in (sc.get('_reads') or sc['reads']):
+    pending = [rd if isinstance(rd, bytes) else bytes.fromhex(rd) for rd in (sc.get('_reads') or sc['reads'])]
+    pending.reverse()                       # pop() takes the next read
+    nest = {int(k): v for k, v in (sc.get('nest') or {}).items()}
+    raise_at = sc.get('raise_at')
+    if nest or raise_at is not None:
+        def hook(j):
+            # (a) the handler of message j feeds the next read(s) of the SAME stream before it returns (a peer on a
+            #     synchronous in-memory transport answering at once); (b) the handler of message j raises
+            for _ in range(nest.get(j, 0)):
+                if pending:
+                    p.dataReceived(pending.pop())
+            if raise_at == j:
+                raise HandlerError('handler of message %d' % j)
+        p.hook = hook
+    raised = 0
+    while pending:
         try:
-            p.dataReceived(rd if isinstance(rd, bytes) else bytes.fromhex(rd))
+            p.dataReceived(pending.pop())
+        except HandlerError:
+            raised += 1                     # caught as a transport would; the connection is kept for the schedule
+            if not pending:
+                pending.append(b'')         # what was buffered behind the failing message is framed by the next read
         except Exception as e:
             crashed = type(e).__name__
             p.effects.append('!')
@@ -524,6 +554,10 @@ def classify(sc, obs):
     if obs['crashed']:
         what += '; %s escaped dataReceived' % obs['crashed']
     reads = sc.get('_reads') or [bytes.fromhex(r) for r in sc['reads']]
+    if sc.get('nest') or sc.get('raise_at') is not None:
+        return ('reentrant-delivery-misframed',
+                'a read delivered while a message handler runs, or after a handler raised, is framed differently: '
+                + what)
     if 'max_msg' in sc or 'compact_huge' in sc:
         return 'size-limit-applied-to-buffer', ('messages within the size limit, the buffer as a whole over it: ' + what)
     if sc['mode'] == 'binary':
@@ -806,6 +840,48 @@ def stream_limit(ctx, B):
             B.flush()
 
 
+def stream_reentrant(ctx, B):
+    """Implementation-only schedules (the model assumes handlers do not re-enter): (a) the handler of message j
+    feeds the next 1-3 reads of the same stream to dataReceived before it returns; (b) the handler of message j
+    raises, the driver catches it as a transport would and delivers the rest.  Oracle: exactly the messages sent,
+    each once, in the order in which their delivery started, identical content."""
+    rng = ctx.rng
+    n = ctx.scale(quick=500, thorough=12000)
+    for _ in range(n):
+        k = rng.choice([2, 3, 4, 6, 9])
+        raws = [gen_message(rng, short=rng.random() < 0.6)[0] for _ in range(k)]
+        stream = b''.join(raws)
+        style = rng.randrange(4)
+        if style == 0:
+            # every message its own read
+            reads = list(raws)
+        elif style == 1:
+            # cuts inside messages: the nested read completes the message whose header the outer call cached
+            pos, cuts = 0, []
+            for r in raws[:-1]:
+                pos += len(r)
+                cuts.append(pos + rng.choice([0, 1, 8, 15, 16, 17]))
+            reads = cut(stream, [c for c in cuts if c < len(stream)])
+        else:
+            reads = [r for r in random_partition(rng, stream)]
+        nest, raise_at = {}, None
+        kind = rng.random()
+        if kind < 0.7:
+            for j in rng.sample(range(k), rng.choice([1, 1, 2])):
+                nest[str(j)] = rng.choice([1, 1, 2, 3])
+        if kind >= 0.5:
+            raise_at = rng.randrange(k)
+        sc = mk_binary(raws, reads, no_model=True, nest=nest, raise_at=raise_at)
+        if rng.random() < 0.15:
+            hs = b'BEGIN\r\n'
+            sc = {'mode': 'stub-client', 'script': 's', 'reads': [(hs + reads[0]).hex()] + [r.hex() for r in reads[1:]],
+                  'sent': [r.hex() for r in raws], 'handshake': hs.hex(), 'no_model': True, 'nest': nest,
+                  'raise_at': raise_at}
+        ctx.stat('reentrant-delivery:nested=%s raises=%s' % (bool(nest), raise_at is not None))
+        B.add('reentrant-delivery', sc)
+    B.flush()
+
+
 def stream_binary_malformed(ctx, B):
     """Arbitrary bytes in binary mode: framing of garbage (correspondence only, no oracle)."""
     rng = ctx.rng
@@ -1063,6 +1139,7 @@ def run(ctx):
     stream_handoff_stub(ctx, B)
     stream_binary_unparsable(ctx, B)
     stream_limit(ctx, B)
+    stream_reentrant(ctx, B)
     B.flush()
     for t in SERIALIZER_NOTES[:3]:
         ctx.note(t)
